@@ -1,8 +1,12 @@
 use std::collections::hash_map::Entry;
+#[cfg(not(similar_verif))]
 use std::collections::HashMap;
 use std::fmt::Debug;
 use std::hash::{Hash, Hasher};
 use std::ops::{Add, Index, Range};
+
+#[cfg(similar_verif)]
+use crate::verif::HashMap;
 
 /// Utility function to check if a range is empty that works on older rust versions
 #[inline(always)]
@@ -89,6 +93,10 @@ where
         .filter_map(|(_, x)| x)
         .map(|index| UniqueItem { lookup, index })
         .collect::<Vec<_>>();
+    #[cfg(similar_verif)]
+    for item in &rv {
+        crate::verif::observe_order(item.original_index());
+    }
     rv.sort_by_key(|a| a.original_index());
     rv
 }
